@@ -73,6 +73,10 @@ def snapshot(c):
     return (c.hash, to01(c.bits), tuple(id(r) for r in c.refs), tuple(r.hash for r in c.refs), c.type_, c.level_mask.mask)
 
 
+class _AppCell(Cell):
+    """What an application deriving from Cell looks like (no behaviour added)."""
+
+
 class PoolWorld(HistoryWorld):
     run_timeout = 60
 
@@ -196,7 +200,7 @@ class PoolWorld(HistoryWorld):
         if r < 0.18:
             return {'op': 'build', 'bits': _rbits(rng, nb), 'refs': refs, 'caller': caller}
         if r < 0.25:
-            return {'op': 'build_more', 'bits': _rbits(rng, rng.choice([0, 1, 3, 8, 13, 64])), 'ref': self._ref(rng) if rng.random() < 0.3 else None,
+            return {'op': 'build_more', 'replace': self._ref(rng) if rng.random() < 0.3 else None, 'bits': _rbits(rng, rng.choice([0, 1, 3, 8, 13, 64])), 'ref': self._ref(rng) if rng.random() < 0.3 else None,
                     'fresh': rng.random() < 0.3, 'caller': caller}
         if r < 0.40:
             return {'op': 'direct', 'bits': _rbits(rng, nb), 'refs': refs, 'plain': rng.random() < 0.5, 'caller': caller}
@@ -204,7 +208,7 @@ class PoolWorld(HistoryWorld):
             return {'op': 'copy', 'c': self._ref(rng), 'caller': caller}
         if r < 0.72:
             f = rng.choice(OPTS)
-            return {'op': 'import', 'c': self._ref(rng), 'idx': f[0], 'crc': f[1], 'cache': f[2], 'size_extra': rng.choice([0, 0, 1]), 'off_extra': rng.choice([0, 0, 2]),
+            return {'op': 'import', 'sub': rng.random() < 0.25, 'c': self._ref(rng), 'idx': f[0], 'crc': f[1], 'cache': f[2], 'size_extra': rng.choice([0, 0, 1]), 'off_extra': rng.choice([0, 0, 2]),
                     'shuffle': rng.getrandbits(16), 'entry': rng.choice(['one', 'list']), 'caller': caller}
         if r < 0.86:
             return {'op': 'slice_to_cell', 'c': self._ref(rng), 'skip_bits': rng.choice([0, 0, 1, 7, 8, rng.randint(0, 64)]), 'skip_refs': rng.choice([0, 0, 1, 2, 4]), 'how': rng.choice(['to_cell', 'to_cell', 'to_builder', 'store_slice', 'copy_to_cell']), 'after_bits': rng.choice([0, 0, 1, 8, 33]), 'after_refs': rng.choice([0, 0, 1]), 'caller': caller,
@@ -460,6 +464,34 @@ class PoolWorld(HistoryWorld):
             pb['refs'].append(e)
         ctx.probe('builder-reused-after-end_cell')
         self._register(st, cal.cells, c, twin, ctx, 'build_more')
+        if op.get('replace') and (pb['bits'] or pb['refs']):
+            # the builder's (public, settable) content is replaced by other content of the SAME size, and it is finished again: the
+            # cell handed out now holds the new content, the one handed out before still the old
+            nb = ''.join('1' if ch == '0' else '0' for ch in pb['bits'])
+            alt = st.entry(k, op['replace'])
+            nrefs = list(pb['refs'])
+            if nrefs and alt is not None and alt['twin'] is not None:
+                nrefs[0] = alt
+            try:
+                twin2 = RCell(nb, [x['twin'] for x in nrefs])
+            except RCellError:
+                return c.hash.hex()
+
+            def again():
+                pb['lib'].bits = tvm_bits(nb)
+                if nrefs:
+                    pb['lib'].refs = [x['lib'] for x in nrefs]
+                return pb['lib'].end_cell()
+            ok2, c2 = call(again)
+            if ok2:
+                pb['bits'], pb['refs'] = nb, nrefs
+                ctx.probe('builder-content-replaced-by-content-of-the-same-size')
+                if self.prop == 'C08' and (to01(c2.bits) != nb or [id(r) for r in c2.refs] != [id(x['lib']) for x in nrefs]):
+                    self.V(ctx, 'result-depends-on-earlier-call', 'end_cell', 'after-an-earlier-end_cell-of-the-same-builder',
+                           'end_cell() after the builder\'s content was replaced returned a cell with the OLD content (it would not, had end_cell() not been called before)')
+                self._register(st, cal.cells, c2, twin2, ctx, 'build_more_replaced')
+            else:
+                cal.pbuilder = None
         return c.hash.hex()
 
     def op_direct(self, st, op, ctx, k):
@@ -513,10 +545,15 @@ class PoolWorld(HistoryWorld):
                 data = refboc.encode([twin], off_bytes=min(8, refboc.min_bytes(len(data)) + op['off_extra']), **kw)
             except refboc.BocFormatError:
                 pass
+        # an application may parse into its own subclass of Cell (from_boc / one_from_boc are classmethods building cls(...)): such a
+        # cell is a cell - same hash, equal to and colliding with the plain cells of the same content
+        klass = _AppCell if op.get('sub') else Cell
+        if op.get('sub'):
+            ctx.probe('cell-parsed-into-a-subclass-of-Cell')
         if op['entry'] == 'one':
-            ok, c = call(Cell.one_from_boc, data)
+            ok, c = call(klass.one_from_boc, data)
         else:
-            ok, c = call(lambda: Cell.from_boc(data)[0])
+            ok, c = call(lambda: klass.from_boc(data)[0])
         if not ok:
             if self.prop != 'C08':
                 # C05 decides foreign encodings; here an import that fails simply creates nothing
